@@ -532,7 +532,15 @@ class C06(core.Prop):
                 stmts.append(stmt)
         conns = [0, 1] if rng.random() < 0.6 else [0]
         ops = [{'op': 'mutate', 'conn': c, 'data': self._data(rng, ['A', 'B'])} for c in conns]
-        for _ in range(rng.randint(3, 6)):
+        # the two statements differing in a constant only are read back to back over unchanged storage (in either order,
+        # possibly with a restart in between): the second read must not be served the first one's rows
+        c = rng.choice(conns)
+        first, second = rng.sample([0, 1], 2)
+        ops.append({'op': 'read', 'conn': c, 'stmt': first})
+        if rng.random() < 0.3:
+            ops.append({'op': 'restart'})
+        ops.append({'op': 'read', 'conn': c, 'stmt': second})
+        for _ in range(rng.randint(2, 5)):
             r = rng.random()
             if r < 0.6:
                 ops.append({'op': 'read', 'conn': rng.choice(conns), 'stmt': rng.randrange(len(stmts))})
@@ -556,7 +564,10 @@ class C06(core.Prop):
 
         conns = [0, 1] if rng.random() < 0.7 else [0]
         ops = [{'op': 'mutate', 'conn': c, 'data': data()} for c in conns]
-        for _ in range(rng.randint(3, 6)):
+        c = rng.choice(conns)
+        first, second = rng.sample([0, 1], 2)
+        ops += [{'op': 'read', 'conn': c, 'stmt': first}, {'op': 'read', 'conn': c, 'stmt': second}]
+        for _ in range(rng.randint(2, 5)):
             r = rng.random()
             if r < 0.6:
                 ops.append({'op': 'read', 'conn': rng.choice(conns), 'stmt': rng.randrange(len(stmts))})
